@@ -1586,6 +1586,10 @@ func runC04(a runArgs) error {
 	c04DeadlineFamily(e, thorough)
 	c04DeadlineRandom(e, NewRng(a.seed*1000003+17), thorough)
 	c04PagedFamily(e, thorough)
+	// state of an exchange that is still under way: a further Do with the token in flight, a stale request
+	// with the token of a response that is still being fetched (c04flight.go)
+	c04SecondDoFamily(e, thorough)
+	c04StaleRequestFamily(e, thorough)
 	return e.Flush(a.out)
 }
 
@@ -1611,6 +1615,11 @@ var c04Canonical = []string{
 	"c04 7 2048 7 2048 | x0,2,7,0,5,1500,-1 | r11,5,0,42 | | S0 D0 U0 D0 T0 E0 E1",
 	// a download of a body supplied through a paged reader (pages of 100 bytes, blocks of 16), loss-free, 100 deliveries
 	"c04 0 1152 0 1152 pg100 | x0,1,8,0,0,0,-1 | r13,300,1,50 | | S0" + strings.Repeat(" D0", 100),
+	// a further Do with the token of an upload in flight (Properties/C04.v C04_second_do_history; seeded regression C04-8)
+	"c04 0 1152 0 1152 | x0,2,7,0,5,64,-1 | r11,5,0,42 | | S0 D0 D0 D0 S0 D0 D0 D0 D0 D0",
+	// a stale copy of the first request reaches B while the download is under way, after the resource (no ETag) got new
+	// content; B's answer to it is lost (C04_stale_request_history; seeded regression C04-9)
+	"c04 0 1152 0 1152 | x0,1,7,0,5,0,-1 | r11,75,0,42 | | S0 D0 D0 D0 D0 B0 R0 X1 D0 D0 D0 D0 D0 D0",
 }
 
 // c04RestartFamily: histories in which the reassembly of a block-wise RESPONSE has to start again at
